@@ -63,7 +63,7 @@ LReadStep(st, r, via) ==
       it  == st.items[rd.idx + 1]
       st2 == [st EXCEPT !.readers[r].cursor = @ + EncLen(it), !.readers[r].idx = @ + 1] IN
   [s |-> st2,
-   last |-> [a |-> "Read", arg |-> [r |-> r, t |-> it.t, via |-> via, n |-> IF it.t = "raw" THEN Len(it.v) ELSE 0, dst |-> "fresh", pre |-> 0],
+   last |-> [a |-> "Read", arg |-> [r |-> r, t |-> it.t, via |-> via, n |-> IF it.t = "raw" THEN Len(it.v) ELSE 0, g |-> 0, dst |-> "fresh", pre |-> 0],
              cls |-> it.t \o ":" \o via \o (IF rd.cursor >= rd.born THEN ",written-after-reader" ELSE ",written-before-reader"),
              ok |-> TRUE, exp |-> [ret |-> Val(it), rs |-> RS(st2)]]]
 
